@@ -223,6 +223,27 @@ func (e *lexEngine) nonDecreasing(f *ssa.Function, pi int, depth int) bool {
 					res = false
 					continue
 				}
+				// *p = offset returned by a callee that returns at least the offset it is given, called with *p (+ c)
+				if ex, ok := x.Val.(*ssa.Extract); ok {
+					okGrow := false
+					if call, ok := ex.Tuple.(*ssa.Call); ok {
+						if j, ok := resultGeParam(call.Call.StaticCallee(), ex.Index); ok && j < len(call.Call.Args) {
+							arg := call.Call.Args[j]
+							if bo, ok := arg.(*ssa.BinOp); ok && bo.Op == token.ADD {
+								if cst, ok := bo.Y.(*ssa.Const); ok && cst.Value != nil && constant.Sign(cst.Value) >= 0 {
+									arg = bo.X
+								}
+							}
+							if ld, ok := arg.(*ssa.UnOp); ok && ld.Op == token.MUL && ld.X == ssa.Value(p) {
+								okGrow = true
+							}
+						}
+					}
+					if !okGrow {
+						res = false
+					}
+					continue
+				}
 				bo, ok := x.Val.(*ssa.BinOp)
 				if !ok || bo.Op != token.ADD {
 					res = false
